@@ -16,12 +16,14 @@ type Env struct {
 	vars   map[string]*Val
 	result []*Val
 	fr     *Frame
+	// inside an iter-invariant: the set of elements the callback has been called on, and whether it asked to stop
+	iterVisited, iterStopped string
 }
 
 func (e *Eng) newEnv() *Env { return &Env{vars: map[string]*Val{}} }
 
 func (env *Env) clone() *Env {
-	n := &Env{vars: make(map[string]*Val, len(env.vars)), result: env.result, fr: env.fr}
+	n := &Env{vars: make(map[string]*Val, len(env.vars)), result: env.result, fr: env.fr, iterVisited: env.iterVisited, iterStopped: env.iterStopped}
 	for k, v := range env.vars {
 		n.vars[k] = v
 	}
@@ -117,6 +119,10 @@ func (e *Eng) funcEnv(fr *Frame) *Env {
 		for n, as := range byComment {
 			if _, have := fr.locals[n]; !have && len(as) == 1 {
 				fr.locals[n] = as[0]
+			}
+			// cell_x: the memory cell of the address-taken variable x itself (x may also name a value read from it)
+			if len(as) == 1 {
+				fr.locals["cell_"+n] = as[0]
 			}
 		}
 	}
@@ -711,6 +717,35 @@ func (e *Eng) evalCall(n *ECall, env *Env, cur, old *State) *Val {
 	case "upd":
 		as := args()
 		return &Val{T: sto(as[0].T, as[1].T, as[2].T), Sort: "(Array Int Int)", KnownLen: -1}
+	case "implements":
+		// implements(x, I): the interface value x is non-nil and its dynamic type implements interface I
+		a := e.eval(n.Args[0], env, cur, old)
+		t, _ := e.specType(typeArgName(n.Args[1]))
+		fn := "implements_" + typeKey(t)
+		e.sc.declare(fn, fmt.Sprintf("(declare-fun %s (Int) Bool)", fn))
+		return bval(and(not(eq(a.T, "0")), sx(fn, sx("typeof", a.T))))
+	case "zeromap":
+		return &Val{T: "((as const (Array Int Int)) 0)", Sort: "(Array Int Int)", KnownLen: -1}
+	case "inTree":
+		// inTree(t, p): the item p is in the btree t (trusted btree model, engine/btree.go)
+		as := args()
+		e.btInit()
+		return bval(sel(sel(e.get(cur, btItems, e.regionSort[btItems]), as[0].T), as[1].T))
+	case "treeLen":
+		as := args()
+		e.btInit()
+		return ival(sel(e.get(cur, btLen, e.regionSort[btLen]), as[0].T))
+	case "visited":
+		if env.iterVisited == "" {
+			panic("visited() outside an iter-invariant")
+		}
+		as := args()
+		return bval(sel(env.iterVisited, as[0].T))
+	case "stopped":
+		if env.iterStopped == "" {
+			panic("stopped() outside an iter-invariant")
+		}
+		return bval(env.iterStopped)
 	case "entry":
 		// entry(p): the value parameter p had when the function was entered (the name may since have been reassigned)
 		id, ok := n.Args[0].(*EIdent)
@@ -845,6 +880,18 @@ func (e *Eng) evalCall(n *ECall, env *Env, cur, old *State) *Val {
 		}
 		ne := env.clone()
 		as := args()
+		if pd.Body == nil {
+			// uninterpreted: a function of the argument values only
+			rt, rs := e.specType(pd.Ret)
+			var ss, ts []string
+			for _, a := range as {
+				ss = append(ss, a.sortName(e))
+				ts = append(ts, a.T)
+			}
+			fn := "spec_" + pd.Name
+			e.sc.declare(fn, fmt.Sprintf("(declare-fun %s (%s) %s)", fn, strings.Join(ss, " "), rs))
+			return &Val{T: sx(fn, ts...), Typ: rt, Sort: rs, KnownLen: -1}
+		}
 		for i, p := range pd.Params {
 			ne.vars[p.Name] = as[i]
 		}
